@@ -29,6 +29,8 @@ type LogCase struct {
 	Limit   int64        `json:"limit"`
 	Forward bool         `json:"forward"`
 	Cluster bool         `json:"cluster,omitempty"`
+	// Shape names the pattern of a shaped pipeline (GenShapedStages); informational.
+	Shape string `json:"shape,omitempty"`
 }
 
 func genLog(rt *rapid.T) LogCase {
@@ -39,7 +41,11 @@ func genLog(rt *rapid.T) LogCase {
 	} else {
 		c.Q.Matchers = GenMatchers(rt, &c.DB)
 	}
-	c.Q.Stages = GenStages(rt, &c.DB, StageOpt{Max: 4})
+	if Chance(rt, "shaped", 50) {
+		c.Q.Stages, c.Shape = GenShapedStages(rt, &c.DB)
+	} else {
+		c.Q.Stages = GenStages(rt, &c.DB, StageOpt{Max: 4})
+	}
 	c.Limit = rapid.SampledFrom([]int64{0, 1, 1, 2, 2, 3, 5, 8, 100, 1000}).Draw(rt, "limit")
 	c.Forward = rapid.Bool().Draw(rt, "forward")
 	c.Cluster = rapid.IntRange(0, 4).Draw(rt, "cluster") == 0
@@ -171,6 +177,9 @@ func TagQuery(o *evid.Obs, e *refeval.Expr) {
 			afterParser = true
 		case refeval.KRegexp:
 			o.Tag("regexp")
+			if strings.Count(st.Val, "(") >= 2 || strings.Contains(st.Val, "(?:") || strings.Contains(st.Val, "(?i)") {
+				o.Tag("regexp-nested-or-special-groups")
+			}
 			afterParser = true
 		case refeval.KDrop:
 			o.Tag("drop")
@@ -222,6 +231,9 @@ func predLog(c LogCase, o *evid.Obs) error {
 		return nil
 	}
 	TagQuery(o, &c.Q)
+	if c.Shape != "" {
+		o.Tag("shape:filter-sep-rewrite", "shape:"+c.Shape)
+	}
 	if sel, _ := refeval.Select(c.DB.Ref(), c.Q.Matchers, from, to, &refeval.Flags{}); len(sel) == 0 {
 		o.Tag("selector-selects-nothing-in-window")
 	}
